@@ -238,8 +238,14 @@ fn all_keys_bip388(dump: &str) -> bool {
             return false;
         }
         let paths: Vec<&str> = fields[2].split(';').collect();
-        if paths.len() != 2 || paths.iter().any(|p| p.contains('/') || p.is_empty() || p.starts_with('h')) || paths[0] == paths[1] {
+        if paths.len() != 2 || paths.iter().any(|p| p.contains('/') || p.is_empty() || p.starts_with('h')) {
             return false;
+        }
+        // `<a;b>` with a < b (unhardened) is the only accepted order
+        let num = |p: &str| p.trim_start_matches('n').parse::<u64>().ok();
+        match (num(paths[0]), num(paths[1])) {
+            (Some(a), Some(b)) if a < b => {}
+            _ => return false,
         }
         if !fields[3].starts_with("unhardened]") {
             return false;
